@@ -285,8 +285,10 @@ type Product struct {
 	Run      func(idx []int) (outcome string, f *ev.Fail) // must be safe for concurrent use on distinct idx
 	Describe func(idx []int) any
 	Deadline time.Time
-	// Per-worker setup hook: called once in each worker goroutine before cases run.
-	Extra map[string]any
+	Extra    map[string]any
+	// Execs, when set, is incremented by Run with the number of real executions
+	// of the implementation inside each case; it is then what "transitions" reports.
+	Execs *int64
 }
 
 func (p *Product) total() int {
@@ -378,7 +380,11 @@ func (p *Product) Exec(r *ev.Run) {
 	if p.Describe != nil && total > 0 {
 		r.Sample(map[string]any{"scenario": p.Name, "case": p.Describe(p.decode(total / 2))})
 	}
-	r.AddScenario(ev.ScenarioStat{Name: p.Name, States: done, Transitions: done, Exhaustive: timedOut == 0, Bound: bound, Outcomes: len(all), Extra: p.Extra, WallS: time.Since(t0).Seconds()})
+	trans := done
+	if p.Execs != nil {
+		trans = atomic.LoadInt64(p.Execs)
+	}
+	r.AddScenario(ev.ScenarioStat{Name: p.Name, States: done, Transitions: trans, Exhaustive: timedOut == 0, Bound: bound, Outcomes: len(all), Extra: p.Extra, WallS: time.Since(t0).Seconds()})
 }
 
 func (p *Product) Replay(r *ev.Run, raw json.RawMessage) {
